@@ -685,6 +685,12 @@ setup_properties(const InterrogateFunction &ifunc, InterfaceMaker *interface_mak
     }
   }
 
+  if (_type == T_typecast_method && !_has_this) {
+    // A conversion operator must be a non-static member function; there is
+    // no object to convert otherwise.
+    return false;
+  }
+
   const CPPParameterList::Parameters &params =
     _ftype->_parameters->_parameters;
   for (int i = 0; i < (int)params.size() - _num_default_parameters; i++) {
